@@ -742,16 +742,23 @@ func (p *probe) seqLevel(cfg bcfg, unknown []int, ranks []string) {
 					d["sequence_taxid"], d["got"], d["taxid_after"] = id, gv, s.Taxid()
 					c.Violate("seq-valid:"+cl, fmt.Sprintf("predicate IsAValidTaxon on a sequence of taxid %d = %v", id, gv), d)
 				}
-				gv = fix(s)
-				p.ev++
 				wantID := id
 				if x >= 0 {
 					wantID = t.Taxid[x]
 				}
-				if gv != (x >= 0) || s.Taxid() != wantID {
-					d := describe(t, x)
-					d["sequence_taxid"], d["got"], d["taxid_after"], d["want_taxid_after"] = id, gv, s.Taxid(), wantID
-					c.Violate("seq-valid-autocorrect:"+cl, fmt.Sprintf("IsAValidTaxon(autocorrect) on taxid %d leaves taxid %d", id, s.Taxid()), d)
+				// the same predicate instance meets the same (possibly merged) taxid on several sequences
+				for rep := 0; rep < 3; rep++ {
+					if rep > 0 {
+						s = mkseq(fmt.Sprintf("s%d", rep), id)
+					}
+					gv = fix(s)
+					p.ev++
+					if gv != (x >= 0) || s.Taxid() != wantID {
+						d := describe(t, x)
+						d["sequence_taxid"], d["got"], d["taxid_after"], d["want_taxid_after"], d["nth_sequence_with_this_taxid"] = id, gv, s.Taxid(), wantID, rep+1
+						c.Violate("seq-valid-autocorrect:"+cl, fmt.Sprintf("IsAValidTaxon(autocorrect) on taxid %d leaves taxid %d", id, s.Taxid()), d)
+						break
+					}
 				}
 
 				p.op = "Taxonomy.SetTaxonAtRank"
